@@ -11,10 +11,16 @@
    the result's element type is NumPy's common type of ALL the arguments -- independent of their order,
    wide enough for every argument -- and converting to it changes no value, so that on such data the
    typed reference coincides with the exact one; a back-end that takes the type from its first
-   argument is observably different (truncates, wraps, collapses to 0/1, depends on the order). *)
+   argument is observably different (truncates, wraps, collapses to 0/1, depends on the order).
+   xarray objects (Backends/Named.v): arguments are matched by dimension NAME.  Proved: a multi-argument reduction
+   combines, at every named position, the values the arguments have at that named position, whatever order each
+   argument stores its dimensions in; re-storing an argument (transpose) changes nothing; only when all arguments
+   store the same dimensions in the same ORDER is that the positional stacking of the raw data -- equal sizes are not
+   enough (square: same shape, other values; not square: no array). *)
 From Coq Require Import List NArith ZArith QArith Qcanon String Bool Permutation.
 From EKW Require Import Backends.Tensor Backends.Ops Backends.OpsProofs.
 From EKW Require Import Backends.Dtype Backends.DtypeProofs Backends.OpsCheck Backends.DtypeCheck.
+From EKW Require Import Backends.Named Backends.NamedProofs Backends.NamedCheck.
 From EKWgen Require Import Batchable.
 Import ListNotations.
 Open Scope string_scope.
@@ -127,7 +133,68 @@ Proof.
     split; [exact HP|]. split; [apply promote_list_perm; exact HP|exact HN].
 Qed.
 
+(* ---- xarray: "the same data" is the data at the same NAMED position, not at the same storage position ---- *)
+(* XArrayBackend's multi-argument reductions (sum, prod, min, max, mean, std, var): the result has the dimensions of
+   the first argument and, at every named position e, the reduction of the values of ALL arguments at e *)
+Theorem C15_xarray_multi_by_name : forall o a rest r,
+  xr_multi o (a :: rest) = Ok r ->
+  ndims r = ndims a /\
+  forall e : list (string * nat), in_range (shape (nten a)) (map (pos_of e) (ndims a)) ->
+    nget r e = rf o (map (fun x => nget x e) (a :: rest)).
+Proof. exact xr_multi_by_name. Qed.
+
+(* a DataArray stored in another dimension order (.transpose / .T) is the same data ... *)
+Theorem C15_xarray_transpose_same_values : forall names a a' (e : list (string * nat)),
+  ntranspose names a = Ok a' ->
+  in_range (shape (nten a')) (map (pos_of e) names) ->
+  ndims a' = names /\ nget a' e = nget a e.
+Proof. exact ntranspose_same_values. Qed.
+
+(* ... so the result does not depend on how the arguments store their data *)
+Theorem C15_xarray_storage_order_irrelevant : forall o a rest rest' r r',
+  xr_multi o (a :: rest) = Ok r -> xr_multi o (a :: rest') = Ok r' ->
+  forall e : list (string * nat), in_range (shape (nten a)) (map (pos_of e) (ndims a)) ->
+  Forall2 (fun x x' => nget x e = nget x' e) rest rest' ->
+  nget r e = nget r' e.
+Proof. exact xr_multi_storage_order_irrelevant. Qed.
+
+(* putting the raw data of the arguments on the new axis is the same thing exactly when every argument stores the
+   same dimensions in the same ORDER ... *)
+Theorem C15_xarray_same_order_is_positional : forall o a rest r,
+  Forall (fun x => ndims x = ndims a /\ shape (nten x) = shape (nten a) /\ valid (nten x)) (a :: rest) ->
+  xr_multi o (a :: rest) = Ok r -> xr_multi_positional o (a :: rest) = Ok r.
+Proof. exact xr_same_order_is_positional. Qed.
+
+(* ... equal SIZES (a.sizes == b.sizes, a comparison of mappings) are not enough *)
+Theorem C15_xarray_positional_refuted :
+  same_sizes sq_a sq_b = true /\ same_sizes ns_a ns_b = true /\
+  values_of (xr_multi o_sum [sq_a; sq_b]) = Some (["x"; "y"], [2; 2]%nat, map qz' [11; 22; 33; 44]%Z) /\
+  values_of (xr_multi_positional o_sum [sq_a; sq_b]) = Some (["x"; "y"], [2; 2]%nat, map qz' [11; 32; 23; 44]%Z) /\
+  values_of (xr_multi o_sum [ns_a; ns_b]) = Some (["x"; "y"], [2; 3]%nat, map qz' [11; 22; 33; 44; 55; 66]%Z) /\
+  values_of (xr_multi_positional o_sum [ns_a; ns_b]) = None.
+Proof. exact positional_refuted. Qed.
+
 (* ---- non-vacuity: concrete, non-trivial instances of every hypothesis ---- *)
+(* named arrays: a transposed copy with an environment in range; a defined reduction of differently stored
+   arguments; arguments in the same order; the checker accepts the by-name result and refuses the positional one *)
+Example C15_nonvacuous_named :
+  (exists b', ntranspose ["x"; "y"] sq_b = Ok b' /\ ndims b' = ["x"; "y"] /\
+              in_range (shape (nten b')) (map (pos_of [("x", 1%nat); ("y", 0%nat)]) ["x"; "y"]) /\
+              nget b' [("x", 1%nat); ("y", 0%nat)] = qz' 30 /\ nget sq_b [("x", 1%nat); ("y", 0%nat)] = qz' 30) /\
+  (exists r, xr_multi o_sum [sq_a; sq_b] = Ok r /\
+             in_range (shape (nten sq_a)) (map (pos_of [("x", 1%nat); ("y", 0%nat)]) (ndims sq_a)) /\
+             nget r [("x", 1%nat); ("y", 0%nat)] = qz' 33) /\
+  Forall (fun x => ndims x = ndims sq_a /\ shape (nten x) = shape (nten sq_a) /\ valid (nten x)) [sq_a; sq_a].
+Proof. exact named_nonvacuous. Qed.
+
+Example C15_nonvacuous_named_checker :
+  check_xcase (XReduce "sum" [sq_a; sq_b] None, ["x"; "y"], true, OInt [2; 2]%nat [11; 22; 33; 44]%Z, (0, 1)%Z, (0, 1)%Z) = true /\
+  check_xcase (XReduce "sum" [sq_a; sq_b] None, ["x"; "y"], true, OInt [2; 2]%nat [11; 32; 23; 44]%Z, (0, 1)%Z, (0, 1)%Z) = false /\
+  check_xcase (XReduce "max" [sq_b; sq_a] None, ["y"; "x"], true, OInt [2; 2]%nat [10; 30; 20; 40]%Z, (0, 1)%Z, (0, 1)%Z) = true /\
+  check_xcase (XConcat [ns_a; ns_b] "y", ["x"; "y"], true, OInt [2; 6]%nat [1; 2; 3; 10; 20; 30; 4; 5; 6; 40; 50; 60]%Z, (0, 1)%Z, (0, 1)%Z) = true /\
+  check_xcase (XTake ns_b (inl 1%Z) (inr (-1)%Z), ["y"], true, OInt [3]%nat [40; 50; 60]%Z, (0, 1)%Z, (0, 1)%Z) = true.
+Proof. vm_compute. repeat split; reflexivity. Qed.
+
 (* element types: the common type of a list is not the left fold of the pairwise one (so it is stated on
    lists); a lossless mixture; values in and out of a type; a wrapped and a truncated conversion;
    an instance of every hypothesis of C15_typed_reference_is_exact with a defined, typed result *)
@@ -201,3 +268,8 @@ Print Assumptions C15_asarray_dtype_order_dependent.
 Print Assumptions C15_widening_preserves_values.
 Print Assumptions C15_typed_reference_is_exact.
 Print Assumptions C15_first_argument_dtype_refuted.
+Print Assumptions C15_xarray_multi_by_name.
+Print Assumptions C15_xarray_transpose_same_values.
+Print Assumptions C15_xarray_storage_order_irrelevant.
+Print Assumptions C15_xarray_same_order_is_positional.
+Print Assumptions C15_xarray_positional_refuted.
